@@ -189,6 +189,12 @@ class Buf(object):
             self.ld, self.off, tail = max(1, self.m), 0, 0
             shape = (self.m, self.n)
             self.natural = True
+        elif rnd.random() < 0.3:
+            # a matrix with more rows than the view, addressed with the DEFAULT leading dimension (its number of rows) and explicit dimensions
+            self.ld, self.off, tail = max(1, self.m) + rnd.choice([1, 2]), 0, 0
+            shape = (self.ld, self.n)
+            self.natural = False
+            self.tall = True
         else:
             self.ld = max(1, self.m) + rnd.choice([0, 1, 2])
             self.off = rnd.choice([0, 1, 3])
@@ -204,8 +210,10 @@ class Buf(object):
         self.before = [complex(v) for v in vals]
         self.M = matrix(vals, shape if shape else (total, 1), tc)
 
+    tall = False
+
     def kw(self, name):
-        return {} if self.natural else {"ld" + name: self.ld, "offset" + name: self.off}
+        return {} if (self.natural or self.tall) else {"ld" + name: self.ld, "offset" + name: self.off}
 
     def get(self, m=None, n=None):
         m = self.m if m is None else m
@@ -904,10 +912,10 @@ def run_free(seed):
     a = mat(A, nat)
     ow = 0 if nat else rnd.choice([0, 1, 3])
     wfull = matrix(complex(CAN, CAN), (ow + n + 1, 1), "z")
-    Vb = mat([[0j] * n for _ in range(n)], True)
+    Vb = mat([[0j] * n for _ in range(n)], nat)
     o = obs("schur")
     def go():
-        lapack.gees(a.M, wfull, Vb.M, **({} if a.natural else {"n": n, "offsetw": ow}), **a.kw("A"))
+        lapack.gees(a.M, wfull, Vb.M, **({} if a.natural else {"n": n, "offsetw": ow}), **a.kw("A"), **Vb.kw("V"))
         w = [wfull[ow + i] for i in range(n)]
         o["outside_ok"] = all(wfull[i] == complex(CAN, CAN) for i in range(len(wfull)) if not ow <= i < ow + n)
         T, Zm = a.get(), Vb.get()
@@ -922,7 +930,7 @@ def run_free(seed):
             # the eigenvalues reported are those of T: trace
             o["order_ok"] = o["order_ok"] and abs(sum(w) - sum(T[i][i] for i in range(n))) <= 1e-9 * (1 + abs(sum(w)))
     attempt(o, go)
-    o["outside_ok"] = o["outside_ok"] and a.outside_ok()
+    o["outside_ok"] = o["outside_ok"] and a.outside_ok() and Vb.outside_ok()
     out.append(o)
     # --- ordered Schur factorisation (select) and generalized Schur factorisation
     def schur_form_ok(T):
